@@ -484,3 +484,52 @@ def r06h(ctx):
         else:
             ctx.bad(cid, c.module.loc(fn), f"{c.qual}.npartitions answers with the requested count (`{unparse(raw[0].value)}`) although {c.name}._lower de-duplicates the divisions it interpolates: fewer partitions than reported come out (repartition(npartitions=20) of 10 integer-indexed rows has 9), so tail(), partitions[-1] and Partitions push-down index past the end")
     ctx.floor("npartitions overrides answering with a requested count", n, 1)
+
+
+# `_divisions` implementations allowed to map division values without a validity check, with the reason
+R06I_EXCEPTIONS = {
+    "_expr.Map": "guarded by the user-asserted `is_monotonic` flag (user-asserted divisions are outside the property)",
+}
+
+
+@rule(
+    "R06i",
+    ["C06"],
+    """MAPPED DIVISIONS ARE VALIDATED - sibling agreement: a `_divisions` that computes the new divisions by pushing the old division
+    VALUES through the operation itself (self.operation / self.func / a per-division comprehension / .map / .rename) only yields
+    truthful divisions if the operation is strictly increasing on the labels. UFuncElemwise checks `valid_divisions(...)` and falls back
+    to unknown, RenameSeries raises on a non-monotonic outcome; every sibling must do one of the two (or sit under a user assertion).
+    Binop did neither: (df.index // 4), (df.index % 3), (100 - df.index) reported unsorted / overlapping divisions and loc lost rows;
+    Series.add_prefix turned (0, 10, 20) into ('p0', 'p10', 'p20').""",
+)
+def r06i(ctx):
+    model = ctx.model
+    n = 0
+    for c in model.expr_classes():
+        mem = c.members.get("_divisions")
+        if mem is None or mem.kind == "attr":
+            continue
+        fn = mem.node
+        t = ast.unparse(fn)
+        if ".divisions" not in t:
+            continue
+        maps = []
+        for x in ast.walk(fn):
+            if isinstance(x, ast.Call) and isinstance(x.func, ast.Attribute) and isinstance(x.func.value, ast.Name) and x.func.value.id == "self" and x.func.attr in ("operation", "func", "op"):
+                maps.append(x)
+            elif isinstance(x, ast.Call) and isinstance(x.func, ast.Attribute) and x.func.attr in ("map", "rename") and ".divisions" in ast.unparse(x.func.value):
+                maps.append(x)
+            elif isinstance(x, (ast.GeneratorExp, ast.ListComp)) and ".divisions" in ast.unparse(x.generators[0].iter) and not (isinstance(x.elt, ast.Name) or isinstance(x.elt, ast.Subscript) or isinstance(x.elt, ast.Constant)):
+                maps.append(x)
+        if not maps:
+            continue
+        n += 1
+        cid = f"{c.qual}._divisions:mapped"
+        checked = "valid_divisions(" in t or ".is_monotonic_increasing" in t
+        if checked:
+            ctx.ok(cid, c.module.loc(fn), "the mapped divisions are validated (valid_divisions / monotonic check)")
+        elif c.qual in R06I_EXCEPTIONS:
+            ctx.exempt(cid, c.module.loc(fn), R06I_EXCEPTIONS[c.qual])
+        else:
+            ctx.bad(cid, c.module.loc(maps[0]), f"{c.qual}._divisions pushes the division values through `{unparse(maps[0])[:80]}` and reports the outcome unchecked: unless the operation is strictly increasing on the labels the divisions are unsorted or equal labels straddle a boundary (index // 4, index % 3, 100 - index, str() of numbers), and loc / repartition / align drop rows")
+    ctx.floor("divisions computed by mapping division values", n, 3)
